@@ -117,6 +117,15 @@ add("F42", ["C03"], "C03.value-aborts|abort|plugin::builtin_functins::try_make_s
 add("F43", ["C03"], "C03.value-aborts|abort|plugin::builtin_functins::str_char_at::macro_function|string index / parse result|panic!( \"str_char_at: index {} out of bounds for s", "macro stage: `str_char_at(\"abc\", 5.0)` panics the compiler (both back ends) instead of a diagnostic (findings/repro/F43_*.mmm)")
 
 
+# ---- reference-count pairing (C12.pairing) -----------------------------------------------------------------
+add("F44", ["C12"], "C12.pairing|instr|Function", "closures are retained (CloneHeap) whenever they are passed to a function or returned, but the release inserter emits CloseHeapClosure for a function-typed value, which does not decrement anything: `fn app(f,x){f(x)} fn dsp(){ app(|x| x*2.0, 3.0) }` and `let g = mk(2.0)` grow by one closure and one heap object per sample (findings/repro/F44_F46_refcount_leaks/)")
+add("F45", ["C12"], "C12.pairing|scope|arguments", "arguments are cloned by the caller for the callee, no function exit releases its parameters: `fn f(l: List) -> float { 1.0 }  f(l)` grows by one heap object per sample")
+add("F46", ["C12"], "C12.pairing|scope|eval_union_match", "names bound by a constructor pattern get a cloned payload that is never released: `match l { Nil => 0.0, Cons(h, t) => h }` grows by one heap object per sample")
+add("F46", ["C12"], "C12.pairing|scope|add_bind_pattern", "same for a `let` tuple pattern: `let (l, g) = (Cons(1.0, Nil), 2.0)` grows by one heap object per sample")
+add("F46", ["C12"], "C12.pairing|scope|bind_pattern", "same for a tuple pattern inside a constructor pattern: `Pair((l, g)) => g` grows by one heap object per sample")
+add("F46", ["C12"], "C12.pairing|scope|compile_decision_tree", "same for payload bindings of a tuple match: `match (l, 1.0) { (Cons(h, t), 1) => h, _ => 0.0 }` grows by one heap object per sample")
+
+
 def main():
     extra = os.path.join(HERE, "tools", "findings_more.py")
     if os.path.exists(extra):
